@@ -441,3 +441,16 @@ def tuple_compare(a: int, b: int):
 
 def abs_round_int(x: float):
     return (abs(int(x)), int(abs(x)), round(x, 6) >= x - 1e-6)
+
+
+def generator_function_and_set_update(a: int, b: int):
+    def pairs(lo, hi):
+        for i in range(lo, hi):
+            if i % 2 == 0:
+                yield (i, i + a)
+    s = set()
+    s.update(pairs(0, 5))
+    s.update([(9, b)], [(1, 1)])
+    d = dict.fromkeys(["x", "y"], [])
+    d["x"].append(a)                       # the value object is shared between the keys
+    return (len(s), (0, a) in s, (9, b) in s, (2, 2 + a) in s, (3, 3 + a) in s, d["y"], list(pairs(1, 4)), sum(x for x, _ in pairs(0, 7)))
